@@ -37,11 +37,11 @@ CLAIMED = {
  "C04": dict(
     text="Coq theorems over the output/dispatch/action model with constants (modes, flags, printf formats) regenerated from src/output/*.c and the action/dispatch "
          "skeletons regenerated from clang's AST: C04_one_record (exactly one record, at the configured sink, equal to the documented frame, for every message, output, "
-         "argument, ident, priority, pid), C04_devlog_frame, C04_none_when_dropped/_empty, C04_at_most_one. Tied by a system-level correspondence in which the harness owns "
+         "argument, ident, priority, pid), C04_devlog_frame, C04_none_when_dropped/_empty, C04_at_most_one; with error logging on, C04_error_records (exactly n1+n2 separate whole framed records of the error text - one per refused append while the message resp. the output's own path/ident template was formatted, Expand.Errors - followed by the ONE record of the message), C04_fits_no_error_record, C04_error_logging_off. Tied by a system-level correspondence in which the harness owns "
          "all seven sinks and the recorder drains them at exec entry (also with a simulated successful exec), compared with the extracted models' prediction.",
     ref="DESIGN.md section 7 C04",
     note="Trusted: Coq kernel + vm_compute; tr_output/tr_expand/skel translators; extraction + drivers; harness. Assumes the sink accepts the operations (C03 covers failures); "
-         "stderr unbuffered; kernel datagram size limits outside the model; error-logging-on extra records not modelled (error logging off in the run).",
+         "stderr unbuffered; kernel datagram size limits outside the model.",
     technique="Coq proof over regenerated output constants/skeletons + sink-sampling system-level correspondence"),
  "C17": dict(
     text="Coq theorems C17_one_write (append-mode open without truncation, exactly one write(2) per framed record, from the regenerated open flags / write pattern of "
@@ -52,6 +52,27 @@ CLAIMED = {
     note="Trusted: Coq kernel; tr_output; strace. ASSUMED, not proved: the kernel executes each O_APPEND write to a local regular file as one indivisible append; short writes outside the model (partial).",
     technique="Coq proof (permutation under interleaving) + strace syscall-pattern correspondence"),
 }
+
+# properties built by the round-2 builders deliver their manifest text as notes/manifest-Cxx.json
+import glob as _glob
+for _f in sorted(_glob.glob(os.path.join(V, "notes", "manifest-C*.json"))):
+    _p = os.path.basename(_f)[len("manifest-"):-len(".json")]
+    if os.path.exists(os.path.join(V, "checks", _p.lower() + ".py")):
+        CLAIMED[_p] = json.load(open(_f))
+
+# lead's additions on top of the builders' texts
+EXTRA = {
+ "C11": " Joined with C08 and the end-to-end model (System/History.v, props/Properties_C11sys.v): with the REAL file -> settings function (Config.Model.load over the regenerated option tables) "
+        "C11_effective_settings (for every history of file contents, both variants: the settings in force for call k = defaults overlaid with file k) and "
+        "C11_records_depend_on_current_file_only (what call k hands to the sinks = log_exec file_k); tied by a model-based history stream: the composed model predicts every call "
+        "of histories with the file rewritten between calls, in both builds.",
+ "C04": " End to end (System/Compose.v, props/Properties_C04sys.v): C04_sys_dropped_silent / C04_sys_one_record / C04_sys_ideal_is_documented state the same for the records as a function "
+        "of the configuration FILE (Config.load -> Filter.check_chain -> Expand.log_message -> Output.action_el), tied by a whole-run stream: generated snoopy.ini files x calls through the "
+        "production wrapper compared with the per-run extraction of the composed model (which contains the regenerated constants).",
+}
+for _p, _t in EXTRA.items():
+    if _p in CLAIMED:
+        CLAIMED[_p] = dict(CLAIMED[_p], text=CLAIMED[_p]["text"] + _t)
 
 PENDING_REASON = "not claimed yet: the Coq model and its tie for this property are not built at this commit (planned, see DESIGN.md section 12)"
 
